@@ -117,6 +117,15 @@ func hereSlog(skip int) c15Site {
 	return s
 }
 
+// c15WhilePanicking runs f from a deferred function while a panic raised by this function is unwinding.
+//
+//go:noinline
+func c15WhilePanicking(f func() c15Site) (s c15Site) {
+	defer func() { _ = recover() }()
+	defer func() { s = f() }()
+	panic("unwinding")
+}
+
 type c15Front struct {
 	name string
 	lvl  zapcore.Level
@@ -302,7 +311,10 @@ func propC15(t *rapid.T) {
 		// the handler reports the call site slog recorded; WithCallerSkip moves the START OF THE STACK TRACE outwards
 		// (a logging helper wrapped around slog), for the base handler and for every handler derived from it
 		k := skip
-		h := slog.New(zapslog.NewHandler(lg.Core(), zapslog.WithCaller(true), zapslog.AddStacktraceAt(slogStackAt), zapslog.WithCallerSkip(k)))
+		// (the options travel in a slice the caller recycles for its next handler once NewHandler has returned)
+		hopts := []zapslog.HandlerOption{zapslog.WithCaller(true), zapslog.AddStacktraceAt(slogStackAt), zapslog.WithCallerSkip(k)}
+		h := slog.New(zapslog.NewHandler(lg.Core(), hopts...))
+		hopts[0], hopts[1], hopts[2] = zapslog.WithCaller(false), zapslog.AddStacktraceAt(slog.Level(-100)), zapslog.WithCallerSkip(k+3)
 		fronts = []c15Front{
 			{"slog.Info", zapcore.InfoLevel, func() c15Site { x := hereSlog(k); h.Info("m"); return x }},
 			{"slog.Error", zapcore.ErrorLevel, func() c15Site { x := hereSlog(k); h.Error("m", "a", 1); return x }},
@@ -336,7 +348,15 @@ func propC15(t *rapid.T) {
 	if skip <= 4 && rapid.Bool().Draw(t, "inlinableWrappers") {
 		wrapFn = c15WrapInlinable
 	}
-	want := c15Deep(depth, func() c15Site { return wrapFn(skip, fr.f) })
+	call := func() c15Site { return wrapFn(skip, fr.f) }
+	duringPanic := rapid.IntRange(0, 3).Draw(t, "duringPanic") == 0
+	if duringPanic {
+		// the call is made by a deferred function while a panic is unwinding (what recovery middleware does): the
+		// chain then has runtime frames in its MIDDLE, and the panicking function and its callers beyond them
+		inner := call
+		call = func() c15Site { return c15WhilePanicking(inner) }
+	}
+	want := c15Deep(depth, call)
 	all := logs.All()
 	desc := fmt.Sprintf("front %s level %d skip %d depth %d chain %v", fr.name, fr.lvl, skip, depth, chain)
 	if len(all) == 0 {
@@ -386,6 +406,9 @@ func propC15(t *rapid.T) {
 	nt := (conversions >= 1 && skip >= 1) || (depth >= 64 && wantStack)
 	var labels []string
 	labels = append(labels, "front "+fr.name)
+	if duringPanic && wantStack {
+		labels = append(labels, "stack trace taken while a panic is unwinding")
+	}
 	if !callerOn && wantStack {
 		labels = append(labels, "stack trace without caller annotation")
 	}
